@@ -1244,8 +1244,16 @@ func c18R5(c *Ctx) {
 					ok = true
 				}
 				for _, call := range kit.CallsTo(fn, Set(rp)) {
-					ex, isEx := kit.Unwrap(v).(*ssa.Extract)
-					if !isEx || ex.Tuple != call.Value() || ex.Index != 0 {
+					// the first result of this call, possibly through a local that was spilled (field reads of it)
+					isFirst := false
+					if refs := call.Value().Referrers(); refs != nil {
+						for _, u := range *refs {
+							if ex, isEx := u.(*ssa.Extract); isEx && ex.Index == 0 && (kit.Unwrap(v) == ssa.Value(ex) || kit.IsVar(kit.Unwrap(v), ex)) {
+								isFirst = true
+							}
+						}
+					}
+					if !isFirst {
 						continue
 					}
 					a := call.Common().Args
